@@ -20,8 +20,6 @@ theorem div_mod_of (per q j : Nat) (h : j < per) :
   · rw [Nat.mul_comm, Nat.mul_add_div hper, Nat.div_eq_of_lt h, Nat.add_zero]
   · rw [Nat.mul_comm, Nat.mul_add_mod, Nat.mod_eq_of_lt h]
 
-theorem div_mul_le_self' (i per : Nat) : i / per * per ≤ i := Nat.div_mul_le_self i per
-
 /-- the shift/mask bit extraction of `BitfieldIter` is the div/mod one of `BitsView.get` -/
 theorem bitfieldIterBit_eq (c : Chunk) (i j : Nat) (hi : i % 256 = j) :
     bitfieldIterBit c j = bitOfChunk c i := by
